@@ -892,6 +892,17 @@ impl<'a, 'b> Sentence<'a, 'b> {
         }
     }
 
+    // Writes a tag of the partial annotation format, escaping the characters the parser treats as
+    // delimiters inside the annotation part.
+    fn push_escaped_tag(buf: &mut String, tag: &str) {
+        for c in tag.chars() {
+            if matches!(c, ' ' | '-' | '|' | '/' | '\\') {
+                buf.push('\\');
+            }
+            buf.push(c);
+        }
+    }
+
     /// Writes a text with partial annotations.
     ///
     /// # Examples
@@ -921,7 +932,7 @@ impl<'a, 'b> Sentence<'a, 'b> {
             for tag in &ts[..ts.iter().rposition(|x| x.is_some()).map_or(0, |x| x + 1)] {
                 buf.push('/');
                 if let Some(tag) = tag {
-                    buf.push_str(tag);
+                    Self::push_escaped_tag(buf, tag);
                 }
             }
             for ((c, ts), &b) in char_iter.zip(tag_iter).zip(&self.boundaries) {
@@ -934,7 +945,7 @@ impl<'a, 'b> Sentence<'a, 'b> {
                 for tag in &ts[..ts.iter().rposition(|x| x.is_some()).map_or(0, |x| x + 1)] {
                     buf.push('/');
                     if let Some(tag) = tag {
-                        buf.push_str(tag);
+                        Self::push_escaped_tag(buf, tag);
                     }
                 }
             }
